@@ -9,6 +9,18 @@ TRUST = ("Trusted: the VC generator govc (SSA->SMT translation, memory model, lo
          "(strconv, strings, fmt, log, encoding/binary, ...). The PEG parsers (pigeon) and the asmdb JSON table are outside every contract.")
 
 claimed = {
+ "C04": dict(
+   text="Deductive proof over the real handleJcc/handleCALL/getOffsetSize: for every target, position, mode and all 31 jump kinds, the emitted bytes are exactly one branch instruction of the named class/condition (independent SDM decoder) whose sign-extended displacement equals target-(address+length) as integers, so a displacement that does not fit is never silently wrapped. Eleven input regions where the current tree violates this (rel8 lower boundary, rel16/rel32 forms without 66h, off-by-one length, truncation beyond 2^31) are recorded as known findings, excluded, and re-confirmed on every run.",
+   note=TRUST + " The jump target string is what pass 2 substituted (text hop, A5); strconv.ParseInt is an assumed library contract. Routing of ocode kinds to the handlers and the pass-1 size side are covered under C01/C03 when claimed.",
+   design="DESIGN.md section 4, C04"),
+ "C05": dict(
+   text="Deductive proof with loop invariants (unbounded operand lists): handleDB/DW/DD emit, in operand order, the little-endian low 8/16/32 bits of each operand value; handleRESB emits n zero bytes; handleALIGNB pads with zeros to the next multiple of n of the current address; pass-1 processDB/DW/DD advance LOC by exactly 1/2/4 times the number of values they hand to the emitter, processRESB/ALIGNB/ORG update LOC as specified and ORG emits nothing (frame clauses).",
+   note=TRUST + " The text hop from pass 1 to the ocode list (fmt.Sprintf / strings.Split) is assumed (A5). Known finding: ALIGNB pads the emitted length, not the address, when the origin is not a multiple of n.",
+   design="DESIGN.md section 4, C05"),
+ "C16": dict(
+   text="Deductive proof: (relational, two executions of the real handleJcc/handleCALL) shifting the target and the origin by the same delta leaves the emitted branch bytes unchanged; processORG sets LOC and the origin to the ORG value and nothing else (frame), and without ORG both are zero-initialised; processORG emits nothing.",
+   note=TRUST + " Covers the branch and ORG functions; that every label value equals origin+offset is C03's obligation. Hand-off of the origin through frontend.Exec/pass2 is listed under not-yet-covered in the evidence.",
+   design="DESIGN.md section 4, C16"),
  "C02": dict(
    text="Deductive proof, for all inputs, that the real calculateModRM (the only producer of mod/rm/SIB/displacement) emits bytes that an independent SDM decoder maps back to exactly the written base, index, scale and displacement at the address size implied by the registers, in both modes; obligations are generated from /repo's SSA on every run and discharged by z3/cvc5. Five recorded input regions where the current tree violates the clause are excluded as known findings and re-confirmed on every run.",
    note=TRUST + " Operand text -> MemoryInfo (PEG) is assumed (A2).",
